@@ -600,7 +600,7 @@ def run(ctx):
     if ctx.replay:
         return do_replay(ctx, b, runner)
 
-    n = 160 if ctx.tier == "quick" else 4000
+    n = 480 if ctx.tier == "quick" else 8000
     prof = dict(PROFILE_C15)
     if ctx.tier != "quick":
         prof["max_len"] = 50
